@@ -44,7 +44,7 @@ def body(run):
         lambda: run.tlc("ServerLive", "ServerLive", "gen1.cfg", mode="gen", files={"gen1.cfg": gen1}, count=False,
                         label="rows: every (request type, argument class, session class) once"),
         lambda: run.tlc("ServerLive", "ServerLive", "gens.cfg", mode="gen", files={"gens.cfg": gens}, count=False,
-                        simulate=run.pick(60, 600), depth=run.pick(4, 5),
+                        simulate=run.pick(60, 3000), depth=run.pick(4, 5),
                         label="rows: seeded request sequences over the stateful services"),
         lambda: exe.__setitem__(0, run.go_build("serverlive")),
     )
